@@ -74,6 +74,17 @@ class FullFrontend(ConstrainedFrontend):
     #
 
     def _get_solver(self):
+        if self._solver_backend.reuse_z3_solver:
+            # the backend hands out one shared Z3 solver per thread. If another frontend has used it since our last
+            # query it holds that frontend's assertions: take it afresh (solver() resets it) before re-adding ours.
+            solver = getattr(self._tls, "solver", None)
+            if solver is None or getattr(solver, "_claripy_owner", None) is not self._tls:
+                solver = self._tls.solver = self._solver_backend.solver(timeout=self.timeout, max_memory=self.max_memory)
+                solver._claripy_owner = self._tls
+            # we must re-add all constraints
+            self._add_constraints()
+            return solver
+
         if getattr(self._tls, "solver", None) is None:
             self._tls.solver = self._solver_backend.solver(timeout=self.timeout, max_memory=self.max_memory)
             self._add_constraints()
@@ -88,11 +99,7 @@ class FullFrontend(ConstrainedFrontend):
         if len(self._to_add) > 0:
             self._add_constraints()
 
-        solver = self._tls.solver
-        if self._solver_backend.reuse_z3_solver:
-            # we must re-add all constraints
-            self._add_constraints()
-        return solver
+        return self._tls.solver
 
     def _add_constraints(self):
         self._solver_backend.add(self._tls.solver, self.constraints, track=self._track)
